@@ -248,6 +248,18 @@ pub fn run(ctx: &Ctx) -> Report {
                             if let Ok(a) = cr.get_authenticator_from_auth_parameters(ap) {
                                 let a: SigV4Authenticator = a;
                                 obs.push(Observable { name: "SigV4Authenticator Debug".into(), text: format!("{:?} {:#?}", a, a).into_bytes() });
+                                // ... and after it has been used: prevalidate and validate_signature run on this very
+                                // object (whatever it remembers of them), then it and a clone are rendered again
+                                let now = sut::to_chrono(case.cfg.now());
+                                let mm = chrono::Duration::minutes(15);
+                                let _ = a.prevalidate(&case.cfg.region, &case.cfg.service, now, mm);
+                                let mut p2 = case.prov.to_provider();
+                                let (res, _) = env::run_bounded(a.validate_signature(&case.cfg.region, &case.cfg.service, now, mm, &mut p2), 64);
+                                let c2 = a.clone();
+                                obs.push(Observable {
+                                    name: "SigV4Authenticator Debug after validate_signature (and its clone, and the result)".into(),
+                                    text: format!("{:?} {:#?} {:x?} {:?} {:#?} {:?}", a, a, a, c2, c2, res.map(|r| r.map(|ok| format!("{:?}", ok)).map_err(|e| format!("{}", e)))).into_bytes(),
+                                });
                             }
                         }
                     }
